@@ -145,7 +145,7 @@ var props = map[string]prop{
 		"probe.T3-maturity-early.offered", "probe.T3-maturity-at-bound.offered", "probe.T2-v1-timelock-early.offered", "probe.T2-v2-uc-timelock-at-bound.offered", "probe.P1-above-early.offered", "probe.P1-above-at-bound.offered", "probe.P1-after-at-T.offered", "probe.P1-after-T-plus-1.offered", "probe.T1-v1-after-require-at-bound.offered", "probe.T1-v2-before-allow-early.offered"),
 	"C11": func() prop {
 		p := e1prop("C11", 240, 6000, e1Case+"every block, state and transaction put on the simulated network or disk is checked at that moment: decode(encode(x)) re-encodes to identical bytes, encoding is repeatable, the bytes equal RefWire's independent statement of the layout (header, v1 block, v1/v2 transactions incl. the v2 field bitmap, policies, elements, contracts, resolutions, State with accumulator), and sampled proper prefixes (all prefixes for small messages) fail to decode. Limited: value space = what simulated traffic produces; RPC objects are engine E2's part.",
-		"probe.wire.block", "probe.wire.v1txn", "probe.wire.v2txn", "probe.wire.state", "probe.wire.truncation", "probe.wire.multiproof")
+			"probe.wire.block", "probe.wire.v1txn", "probe.wire.v2txn", "probe.wire.state", "probe.wire.truncation", "probe.wire.multiproof")
 		p.Rule += " Second part (engine E2): every rhp v2/v3/v4 request / response object and every gateway object, filled by reflection from the tape, decodes from its own encoding, re-encodes to identical bytes, and fails to decode from sampled proper prefixes (incl. empty and all-but-one byte)."
 		p.ExpectCounters = append(p.ExpectCounters, "codec.objects", "codec.prefixes")
 		p.Parts = append(p.Parts, part{Engine: "E2", Pkg: "sess", Profile: "C11", QuickRuns: 48000, QuickBudgetS: 40, ThoroughRuns: 2400000, ThoroughBudgetS: 600})
